@@ -46,69 +46,7 @@ theorem initial_state_untouched (c : Cfg K S σ) (u0 : S) (trs : List (Tracker K
 
 /-- **progress**: every pass through the loop body takes at least one step -/
 theorem progress (c : Cfg K S σ) (st : LState K S σ) :
-    st.steps + 1 ≤ (advance c st).steps := by
-  have hn := one_le_nsteps st.t (clip (nextAction (mainHandle c st).1) c.tEnd) c.dt
-  show st.steps + 1 ≤ st.steps + _
-  omega
-
-/-- one pass through the loop body never steps beyond the final step count, whatever the
-trackers ask for -/
-theorem bound_advance (c : Cfg K S σ) (hdt : 0 < c.dt) (he1 : c.eps < 1 / 2)
-    (st : LState K S σ) (hl : st.t = c.tStart + st.steps * c.dt)
-    (hc : st.t < c.tEnd - c.eps * c.dt) : (advance c st).steps ≤ finalStepCount c := by
-  set x := (c.tEnd - c.tStart) / c.dt - c.eps with hx
-  have hk : (st.steps : Int) < Int.ceil x := by
-    rw [hl] at hc; exact (cond_iff_lt c hdt st.steps).mp hc
-  have hN : ((finalStepCount c : Nat) : Int) = Int.ceil x := by
-    unfold finalStepCount; rw [← hx]; omega
-  have hle : x ≤ (Int.ceil x : K) := Int.le_ceil x
-  have hT : c.tEnd - c.tStart ≤ ((Int.ceil x : K) + c.eps) * c.dt := by
-    have : (c.tEnd - c.tStart) / c.dt ≤ (Int.ceil x : K) + c.eps := by linarith
-    exact (div_le_iff₀ hdt).mp this
-  set s := clip (nextAction (mainHandle c st).1) c.tEnd with hs
-  have hsle : s ≤ c.tEnd := clip_le _ _
-  obtain ⟨m, hm⟩ : ∃ m : Nat, (m : Int) = Int.ceil x - st.steps := ⟨(Int.ceil x - st.steps).toNat, by omega⟩
-  have hm1 : 1 ≤ m := by omega
-  have hmK : (m : K) = (Int.ceil x : K) - (st.steps : K) := by
-    have : ((m : Int) : K) = ((Int.ceil x - (st.steps : Int) : Int) : K) := by rw [hm]
-    push_cast at this; exact this
-  have hlt : (s - st.t) / c.dt < (m : K) + 1 / 2 := by
-    rw [div_lt_iff₀ hdt, hmK, hl]
-    nlinarith
-  have hn := nsteps_le st.t s c.dt m hm1 hlt
-  show st.steps + nsteps st.t s c.dt ≤ finalStepCount c
-  omega
-
-/-- accounting invariant together with the bound -/
-def Bounded (c : Cfg K S σ) (u0 : S) (st : LState K S σ) : Prop :=
-  Acc c u0 st ∧ st.steps ≤ finalStepCount c
-
-theorem loop_bounded (c : Cfg K S σ) (hdt : 0 < c.dt) (he1 : c.eps < 1 / 2) (u0 : S) (fuel : Nat)
-    (st : LState K S σ) (h : Bounded c u0 st) : Bounded c u0 (loop c fuel st).1 := by
-  refine loop_invariant' c (Bounded c u0) ?_ ?_ fuel st h
-  · intro st ⟨ha, _⟩ hc _
-    exact ⟨acc_advance c u0 st ha, bound_advance c hdt he1 st ha.1 hc⟩
-  · intro st ⟨ha, hb⟩ _ _ _
-    exact ⟨acc_halted c u0 st ha, hb⟩
-
-/-- **no_overshoot**: the run never takes more steps than `⌈T/dt - eps⌉`, on every path and for
-every tracker list and schedule -/
-theorem no_overshoot (c : Cfg K S σ) (hdt : 0 < c.dt) (he1 : c.eps < 1 / 2) (u0 : S)
-    (trs : List (Tracker K S σ)) (fuel : Nat) :
-    (runFuel c u0 trs fuel).steps ≤ finalStepCount c := by
-  show (finalHandle c _).1.steps ≤ _
-  rw [finalHandle_steps]
-  exact (loop_bounded c hdt he1 u0 fuel _ ⟨acc_init c u0 trs, Nat.zero_le _⟩).2
-
-/-- the loop ends regularly exactly at the final step count -/
-theorem loop_final_steps (c : Cfg K S σ) (hdt : 0 < c.dt) (he1 : c.eps < 1 / 2) (u0 : S) (fuel : Nat)
-    (st : LState K S σ) (h : Bounded c u0 st) (hf : (loop c fuel st).2 = .final) :
-    (loop c fuel st).1.steps = finalStepCount c := by
-  obtain ⟨ha, hb⟩ := loop_bounded c hdt he1 u0 fuel st h
-  have hc := loop_exit_final c fuel st hf
-  rw [ha.1, cond_iff_lt c hdt] at hc
-  unfold finalStepCount at hb ⊢
-  omega
+    st.steps + 1 ≤ (advance c st).steps := advance_progress c st
 
 /-- termination: the fuel bound is a theorem -/
 theorem loop_terminates (c : Cfg K S σ) (hdt : 0 < c.dt) (he1 : c.eps < 1 / 2) (u0 : S) :
@@ -126,7 +64,7 @@ theorem loop_terminates (c : Cfg K S σ) (hdt : 0 < c.dt) (he1 : c.eps < 1 / 2) 
     · rw [e]
       have hb' : Bounded c u0 (advance c st) :=
         ⟨acc_advance c u0 st hb.1, bound_advance c hdt he1 st hb.1.1 hc⟩
-      have hp := progress c st
+      have hp := advance_progress c st
       have := hb'.2
       exact ih _ hb' (by omega)
 
@@ -154,12 +92,8 @@ theorem run_terminates (c : Cfg K S σ) (hdt : 0 < c.dt) (he0 : 0 ≤ c.eps) (he
 schedules asked for.  (All other C07 step-count statements are corollaries.) -/
 theorem steps_eq_ceil (c : Cfg K S σ) (hdt : 0 < c.dt) (he1 : c.eps < 1 / 2) (u0 : S)
     (trs : List (Tracker K S σ)) (fuel : Nat) (h : (runFuel c u0 trs fuel).exit.reachedEnd) :
-    (runFuel c u0 trs fuel).steps = finalStepCount c := by
-  have h' : (finalHandle c (loop c fuel (initState c u0 trs))).2.reachedEnd := h
-  rw [finalHandle_reachedEnd c _ (fun r => loop_ne_finalStopped c r _ _)] at h'
-  show (finalHandle c _).1.steps = _
-  rw [finalHandle_steps]
-  exact loop_final_steps c hdt he1 u0 fuel _ ⟨acc_init c u0 trs, Nat.zero_le _⟩ h'
+    (runFuel c u0 trs fuel).steps = finalStepCount c :=
+  run_steps_of_reachedEnd c hdt he1 u0 trs fuel h
 
 /-- **whole_range_exact**: a range that is `N` steps long takes exactly `N` steps and ends at
 `t_end`, for every tracker list and every schedule. -/
@@ -243,9 +177,6 @@ theorem general_range (c : Cfg K S σ) (hdt : 0 < c.dt) (he0 : 0 < c.eps) (he1 :
   · linarith
 
 /-! ### read-only trackers -/
-
-/-- a tracker that never asks to stop (read-only observer) -/
-def Tracker.ReadOnly (tr : Tracker K S σ) : Prop := ∀ n t u, tr.stopAt n t u = none
 
 theorem handle_readOnly (tr : Tracker K S σ) (h : tr.ReadOnly) (t : K) (u : S) :
     (tr.handle t u).2 = none ∧ (tr.handle t u).1.ReadOnly := by
